@@ -58,7 +58,7 @@ Print Assumptions C12_constant.
 
 Example C12_nonvacuous :
   exists s, urun p_spacing p_keepalive (init 0)
-    [SGetWait p_keepalive; Tick p_keepalive; SDeqEmpty; SEnqKA; SDeq IKA; SSetFlag; SLogAdd t_probe;
+    [SGetWait p_keepalive; Tick p_keepalive; SDeqEmpty; SEnqKA; SDeq IKA; SCheckConn true; SSetFlag; SLogAdd t_probe;
      SLockAcq; SWriteA (frame t_probe)] = Some s
   /\ g_wire s = [(p_keepalive, IKA)].
 Proof. eexists. split; [vm_compute; reflexivity|reflexivity]. Qed.
